@@ -3,7 +3,6 @@ package props
 import (
 	"bytes"
 	"fmt"
-	"mime"
 	"sort"
 	"strings"
 
@@ -141,28 +140,10 @@ func c01Run(sc c01Scn) c01Outcome {
 		o.Class, o.Detail = class, fmt.Sprintf(format, a...)
 		return o
 	}
-	// known shape: Q-encoded title that does not fit the one-byte header length
-	titleOverflow := false
-	for i := 0; i < 2; i++ {
-		for _, sp := range specs[i] {
-			if ans[1-i][sp.MID] == '+' {
-				subj := sp.Subject
-				if subj == "" {
-					subj = "subject " + sp.MID
-				}
-				if len(mime.QEncoding.Encode("utf-8", subj))+1+2 > 255 {
-					titleOverflow = true
-				}
-			}
-		}
-	}
 	for i := 0; i < 2; i++ {
 		if res[i].Panic != "" {
 			return fail("panic|"+sess.PanicSiteOf(res[i].Stack), "station %d: %s", i, res[i].Panic)
 		}
-	}
-	if titleOverflow && (res[0].Err != nil || res[1].Err != nil) {
-		return fail("title-length-overflow", "errors %v / %v", res[0].Err, res[1].Err)
 	}
 	if l.Horizon {
 		return fail("no-termination", "operation horizon reached")
